@@ -116,7 +116,7 @@ def run_case(case):
       mjw.step(m, d)
     nacon = int(mw.npy(d.nacon)[0])
     nefc_all = mw.npy(d.nefc)
-    if nacon > d.naconmax or np.any(nefc_all > d.njmax) or nacon == 0 or not np.all(np.isfinite(mw.npy(d.qacc))):
+    if nacon > d.naconmax or np.any(nefc_all > d.njmax) or nacon == 0 or not np.all(np.isfinite(mw.npy(d.qacc))) or np.any(mw.overflow(d) & (E.OVF_NEFC | E.OVF_NNZ | E.OVF_CONTACT)):
       rec.count("evaluations_skipped(capacity/no contacts/diverged)")
       continue
     cw = mw.contacts(d, None)
